@@ -120,7 +120,13 @@ func init() {
 		"internal/abi.FuncPCABIInternal": func(fr *frame, args []value) value { return fr.i.b.BV(SBV64, 0) },
 
 		// ---- runtime
-		"runtime.GOMAXPROCS":   func(fr *frame, args []value) value { return fr.i.b.BV(SBV64, 4) },
+		"runtime.GOMAXPROCS": func(fr *frame, args []value) value {
+			n := fr.i.gomaxprocs
+			if n == 0 {
+				n = 4
+			}
+			return fr.i.b.BV(SBV64, uint64(n))
+		},
 		"runtime.NumCPU":       func(fr *frame, args []value) value { return fr.i.b.BV(SBV64, 4) },
 		"runtime.KeepAlive":    func(fr *frame, args []value) value { return nil },
 		"runtime.SetFinalizer": func(fr *frame, args []value) value { return nil },
